@@ -362,22 +362,27 @@ def ol_sequence(env, variant, length, rng):
             permuted = permuted or transient_duplicate(spec)
             trail.append(list(spec))
             ctx.count("seq_steps")
-            if spec[0] == "move_insert":
-                x = coll.pop(spec[1])
-                model.pop(spec[1])
-                coll.insert(spec[2], x)
-                model.insert(spec[2], x)
-                ok = _ol_after(env, variant, coll, model, f, trail)
-            elif spec[0] == "move_append":
-                x = coll.pop(spec[1])
-                model.pop(spec[1])
-                coll.append(x)
-                model.append(x)
-                ok = _ol_after(env, variant, coll, model, f, trail)
-            elif spec[0] == "reverse_reorder":
-                coll.reverse()
-                coll.reorder()
-                model.reverse()
+            if spec[0] in ("move_insert", "move_append", "reverse_reorder"):
+                if spec[0] == "move_insert":
+                    model.insert(spec[2], model.pop(spec[1]))
+                elif spec[0] == "move_append":
+                    model.append(model.pop(spec[1]))
+                else:
+                    model.reverse()
+                try:
+                    if spec[0] == "move_insert":
+                        coll.insert(spec[2], coll.pop(spec[1]))
+                    elif spec[0] == "move_append":
+                        coll.append(coll.pop(spec[1]))
+                    else:
+                        coll.reverse()
+                        coll.reorder()
+                except Exception as e:  # the plain list did not raise
+                    ctx.violation("orderinglist-%s-exception" % spec[0].replace("_", "-"),
+                                  "%s %s: %s: %s" % (variant, trail[-4:], type(e).__name__, e),
+                                  {"variant": variant, "sequence_so_far": trail[-8:]})
+                    ok = False
+                    break
                 ok = _ol_after(env, variant, coll, model, f, trail)
             else:
                 ok = ol_judge(env, variant, len(model), spec, coll, model, mk, f, trail)
